@@ -46,6 +46,8 @@ DropAt(s, i) == SubSeq(s, 1, i) \o SubSeq(s, i + 2, Len(s))            \* Vec::r
 \* the linear-algebra side of an event over the operands' denotations D (of g) and E (of h)
 ExpectedOn(e, D, E) ==
   CASE e.k = "plug"    -> Compose(D, NI(g), NO(g), E, NO(h))
+    \* g.plug(h); g.plug(h^dagger) on the SAME object: (g ; h) ; h^dagger
+    [] e.k = "plug2"   -> Compose(Compose(D, NI(g), NO(g), E, NO(h)), NI(g), NO(h), Dagger(E, NI(h), NO(h)), NI(h))
     [] e.k = "append"  -> TensorProd(D, NI(g), NO(g), E, NI(h), NO(h))
     [] e.k = "adjoint" -> Dagger(D, NI(g), NO(g))
     [] e.k = "xtoz"    -> D
@@ -67,6 +69,7 @@ ExpectedKnown(e, sig) ==
     [] OTHER -> Expected(e, sig)
 SpecPost(e) ==
   CASE e.k = "plug"    -> Plug(g, h).g
+    [] e.k = "plug2"   -> Plug(Plug(g, h).g, AdjointFull(h)).g
     [] e.k = "append"  -> Juxtapose(g, h)
     [] e.k = "adjoint" -> Adjoint(g)
     [] e.k = "xtoz"    -> XToZ(g)
